@@ -455,6 +455,7 @@ def gen_plan(run_seed, tier, index):
                           'reject': True})
     return {'check': ID, 'forest': forest, 'steps': steps,
             'partial_scopes': r.random() < 0.3,
+            'conn_default_ns': r.choice([NS, NS, 'root/other']),
             'order_seed': r.getrandbits(30), 'query_seed': r.getrandbits(30)}
 
 
@@ -497,10 +498,15 @@ def build_class(spec):
                     qualifiers=mkquals(spec['quals']))
 
 
-def new_conn(partial=False):
-    c = pywbem_mock.FakedWBEMConnection(default_namespace=NS)
-    for q in qual_decls(partial):
-        c.SetQualifier(q, namespace=NS)
+def new_conn(partial=False, default_ns=NS):
+    """The forest always lives in NS; the default namespace of the
+    connection may be another one (every call names NS explicitly)."""
+    c = pywbem_mock.FakedWBEMConnection(default_namespace=default_ns)
+    if default_ns != NS:
+        c.add_namespace(NS)
+    for ns in {NS, default_ns}:
+        for q in qual_decls(partial):
+            c.SetQualifier(q, namespace=ns)
     return c
 
 
@@ -914,7 +920,8 @@ def execute(plan):
     # ---- P1: three replicas
     conns = []
     for via in ('api', 'api', 'mof'):
-        c = new_conn(plan.get('partial_scopes', False))
+        c = new_conn(plan.get('partial_scopes', False),
+                     plan.get('conn_default_ns', NS))
         try:
             for s in topo_order(ro, forest):
                 put_class(c, s, via)
